@@ -19,6 +19,9 @@ STD_AXIOMS = {
     "FunctionalExtensionality.functional_extensionality_dep", "Classical_Prop.classic",
     "ProofIrrelevance.proof_irrelevance", "Eqdep.Eq_rect_eq.eq_rect_eq", "JMeq.JMeq_eq",
 }
+# specification axioms of Coq's primitive floats / 63-bit integers (Coq standard library, Floats / Numbers.Cyclic.Int63);
+# they enter only through the `interval` tactic (texture pedotransfer box proofs)
+STD_AXIOM_PREFIXES = ("FloatAxioms.", "Uint63Axioms.", "Sint63Axioms.", "PrimFloat.", "PrimInt63.", "Uint63.", "FloatOps.", "SpecFloat.")
 
 
 def sh(cmd, timeout=1800, cwd=None):
@@ -105,22 +108,33 @@ def build(verbose=False):
 
 
 def check_property_file(pid):
-    """compile Properties/<pid>.v on its own; parse theorem names and Print Assumptions output."""
-    vf = os.path.join(COQDIR, "theories", "Properties", pid + ".v")
-    if not os.path.exists(vf):
+    """compile Properties/<pid>.v and Properties/<pid>_*.v on their own; parse theorem names and Print Assumptions output."""
+    pdir = os.path.join(COQDIR, "theories", "Properties")
+    files = sorted(glob.glob(os.path.join(pdir, pid + ".v")) + glob.glob(os.path.join(pdir, pid + "_*.v")))
+    if not files:
         return {"exists": False}
-    txt = strip_comments(open(vf).read())
-    names = re.findall(r"^\s*(?:Theorem|Example|Lemma|Corollary)\s+([A-Za-z0-9_']+)", txt, re.M)
-    cmd = "timeout 900 coqc -Q theories AC theories/Properties/%s.v" % pid
-    with open(LOCK, "w") as lk:
-        fcntl.flock(lk, fcntl.LOCK_EX)
-        rc, out = sh(cmd + " 2>&1", cwd=COQDIR, timeout=1000)
-    axioms = sorted(set(re.findall(r"^([A-Za-z_][A-Za-z0-9_.']*)\s*:", out, re.M)) - {"Axioms"}) if rc == 0 else []
-    axioms = [a for a in axioms if "." in a or a in ()]
-    closed = len(re.findall(r"Closed under the global context", out))
-    nonstd = [a for a in axioms if a not in STD_AXIOMS]
-    return {"exists": True, "ok": rc == 0, "theorems": names, "axioms": axioms, "nonstandard_axioms": nonstd,
-            "closed_count": closed, "checker_cmd": "cd coq && " + cmd, "log": out[-3000:] if rc else ""}
+    names = []; axioms = set(); closed = 0; logs = []; ok = True; cmds = []
+    for vf in files:
+        txt = strip_comments(open(vf).read())
+        names += re.findall(r"^\s*(?:Theorem|Example|Lemma|Corollary)\s+([A-Za-z0-9_']+)", txt, re.M)
+        cmd = "timeout 1500 coqc -Q theories AC theories/Properties/%s" % os.path.basename(vf)
+        cmds.append(cmd)
+        with open(LOCK, "w") as lk:
+            fcntl.flock(lk, fcntl.LOCK_EX)
+            rc, out = sh(cmd + " 2>&1", cwd=COQDIR, timeout=1600)
+        if rc != 0:
+            ok = False
+            logs.append(out[-3000:])
+            continue
+        ax = set(re.findall(r"^([A-Za-z_][A-Za-z0-9_.']*)\s*:", out, re.M)) - {"Axioms"}
+        axioms |= {a for a in ax if "." in a}
+        ax2 = set(re.findall(r"^([A-Za-z_][A-Za-z0-9_']*\.[A-Za-z0-9_.']+)\s*$", out, re.M))
+        axioms |= ax2
+        closed += len(re.findall(r"Closed under the global context", out))
+    axioms = sorted(axioms)
+    nonstd = [a for a in axioms if a not in STD_AXIOMS and not a.startswith(STD_AXIOM_PREFIXES)]
+    return {"exists": True, "ok": ok, "theorems": names, "axioms": axioms, "nonstandard_axioms": nonstd, "files": [os.path.basename(f) for f in files],
+            "closed_count": closed, "checker_cmd": "cd coq && " + " && ".join(cmds), "log": "\n".join(logs)}
 
 
 def load_known():
